@@ -438,6 +438,58 @@ def _all_agree_missing(F):
     return bool(pats) and not any(len(set(x)) == 1 for x in pats)
 
 
+def _py_blocks(F):
+    n = len(F[0])
+    joint = [s for s in range(n) if all(A[s]["a"] and len(set(A[s]["a"])) > 1 and A[s]["b"] > 0 for A in F)]
+    blocks = {}
+    for s in joint:
+        blocks.setdefault(tuple(A[s]["b"] for A in F), []).append(s)
+    return [b for b in blocks.values() if len(b) >= 2]
+
+
+def _py_poly_switch_units(F, blk, p):
+    """classification aid only (the verdict is TLC's): flip-free minimum number of partner changes"""
+    from itertools import permutations
+    cols = [s for s in blk if sorted(F[0][s]["a"]) == sorted(F[1][s]["a"])]
+    perms = list(permutations(range(p)))
+    prev = None
+    for s in cols:
+        ok = [pi for pi in perms if all(F[0][s]["a"][pi[k]] == F[1][s]["a"][k] for k in range(p))]
+        cur = {}
+        for pi in ok:
+            cur[pi] = 0 if prev is None else min(v + sum(1 for k in range(p) if pi[k] != pj[k]) for pj, v in prev.items())
+        prev = cur
+    return (min(prev.values()) if prev else 0), len(cols)
+
+
+def _single_match_class(events, p, key):
+    """do all rows that deviate from the definition deviate by (P-1) units per block with exactly one
+    genotype-matching variant?"""
+    dev, explained = 0, 0
+    for e in events:
+        if e.get("ev") != "Pair" or e["p"] <= 2:
+            continue
+        blocks = _py_blocks(e["F"])
+        if key == "lrow":
+            m = max((len(b) for b in blocks), default=0)
+            cands = [b for b in blocks if len(b) == m]
+            vals = [_py_poly_switch_units(e["F"], b, p) for b in cands]
+            if any(e["lrow"]["sw"] == v for v, _ in vals) or not cands:
+                continue
+            dev += 1
+            explained += any(e["lrow"]["sw"] == v + (p - 1) and nm == 1 for v, nm in vals)
+        else:
+            vals = [_py_poly_switch_units(e["F"], b, p) for b in blocks]
+            want = sum(v for v, _ in vals)
+            if e["row"]["sw"] == want:
+                continue
+            dev += 1
+            explained += e["row"]["sw"] == want + (p - 1) * sum(1 for _, nm in vals if nm == 1)
+    if dev and dev == explained:
+        return "switch errors = definition + (P-1)/P for every intersection block with exactly one genotype-matching variant"
+    return None
+
+
 def signature(sc, events, clause):
     p, nf = sc["p"], sc["nf"]
     if clause == "Returns":
@@ -457,9 +509,14 @@ def signature(sc, events, clause):
                 if 2 * z != e["lrow"]["ham"]:
                     n = len(e["agree"])
                     worse = (2 * (n - z) == e["lrow"]["ham"])
-                    return f"ploidy=2 zeros = n - hamming (the worse of the two orientations was marked)" if worse else "ploidy=2 zeros != hamming, other"
+                    return ("ploidy=2 zeros = n - hamming (the worse of the two orientations was marked)" if worse
+                            else "ploidy=2 zeros != hamming, other")
+    if clause in ("SwitchErrorsAreDefinition", "LargestBlockIsDefinition") and p > 2:
+        c = _single_match_class(events, p, "row" if clause == "SwitchErrorsAreDefinition" else "lrow")
+        if c:
+            return f"ploidy>2 {c}"
     if clause == "PolyDecompositionInvariance":
-        return f"ploidy>2 same switch+flip total, different split after re-listing haplotypes"
+        return "ploidy>2 same switch+flip total, different split after re-listing haplotypes"
     return f"ploidy={p} files={nf}"
 
 
